@@ -2476,3 +2476,7 @@ mod tests {
         test_month_day_nano_ops!(Date64Type, date_to_millis);
     }
 }
+
+#[cfg(kani)]
+#[path = "/verif/kani/arrow-arith/numeric.rs"]
+mod verif_kani;
